@@ -79,6 +79,16 @@ Definition step_op (op : list tok) : list tok :=
           if bad then [TB []; TN 0; TN 0; TN 1]
           else [TB body; tn_bool complete; tn_bool complete; TN 0]
       | _ => [TS "badop"] end
+    else if name =? "h2toh1" then
+      (* h2toh1 <ended> <end_chunk flag of the source> <frame payload>.. : the HTTP/1.1 bytes of the body,
+         then what the strict chunked decoder makes of them *)
+      match args with
+      | TN ended :: TN ec :: frames =>
+        let fs := flat_map (fun t => match t with TB b => [b] | _ => [] end) frames in
+        let wire := h2_upload_as_h1 fs (negb (ended =? 0)%Z) (negb (ec =? 0)%Z) in
+        let '(body, complete, bad) := dechunk (S (List.length wire)) wire in
+        [TB wire; TB body; tn_bool complete; tn_bool bad]
+      | _ => [TS "badop"] end
     else if name =? "tlsnew" then []
     else if name =? "tlswrite" then
       (* peer drains: the plain loop offers the rest again after every flush until all is taken *)
